@@ -137,21 +137,29 @@ FailedWriteEv == /\ Step("write_failed") /\ NoFlag /\ UNCHANGED <<sc, written, f
 \*   used from the output = bytes already in place + one copy of every chunk that is moved (clone_output.rs: total_moved counts a chunk once)
 \*   fetched              = stored sizes of the chunks taken from the archive
 \*   seeds + decompressed = what was written for them = all written bytes minus the writes of the re-ordering
-SizeOfId(id) == (CHOOSE c \in Src : c[1] = id)[3]
-MovedIds == IF sc.inplace THEN {id \in {c[1] : c \in OutFound} \cap NeededIds : \E c \in Src : c[1] = id /\ c \notin InPlace} ELSE {}
-RECURSIVE SumIdSizes(_)
-SumIdSizes(S) == IF S = {} THEN 0 ELSE LET a == CHOOSE x \in S : TRUE IN SizeOfId(a) + SumIdSizes(S \ {a})
+\* (every set is bound once with LET: TLC re-evaluates a state-dependent definition at each reference, and the bulk scenarios have some hundred chunks)
+RECURSIVE SumF(_, _)
+SumF(S, f) == IF S = {} THEN 0 ELSE LET a == CHOOSE x \in S : TRUE IN f[a] + SumF(S \ {a}, f)
 RECURSIVE SumSeq(_)
 SumSeq(q) == IF q = <<>> THEN 0 ELSE Head(q) + SumSeq(Tail(q))
-ExpectedUsedSelf == SumSizes(IF sc.inplace THEN InPlace ELSE {}) + SumIdSizes(MovedIds)
-ReorderWritten == SumSizes({c \in Src : c[1] \in MovedIds /\ c \notin InPlace})
-WrittenBytes == SumSizes({c \in Src : c[2] \in written})
 AcctRule(e) ==
-  LET ac == e.acct IN
+  LET ac == e.acct
+      src == Src
+      inpl == IF sc.inplace THEN InPlace ELSE {}
+      needed == NeededIds
+      sizeOf == [id \in needed |-> (CHOOSE c \in src : c[1] = id)[3]]
+      notInPlace == {c \in src : c \notin inpl}
+      moved == IF sc.inplace THEN {id \in {c[1] : c \in OutFound} \cap needed : \E c \in notInPlace : c[1] = id} ELSE {}
+      expectedUsedSelf == SumSizes(inpl) + SumF(moved, sizeOf)
+      reorderWritten == SumSizes({c \in notInPlace : c[1] \in moved})
+      wr == written
+      writtenBytes == SumSizes({c \in src : c[2] \in wr})
+      ft == fetched
+      fetchedStored == SumSizes({a \in Arch : a[1] \in ft}) IN
   IF ~ac.ok THEN "ok"
-  ELSE IF sc.inplace /\ ac.used_self # ExpectedUsedSelf THEN "ACCT: bytes reported as used from the output are not the in-place bytes plus one copy of every moved chunk"
-  ELSE IF ac.fetched_stored # SumSizes({a \in Arch : a[1] \in fetched}) THEN "ACCT: bytes reported as fetched are not the stored sizes of the chunks taken from the archive"
-  ELSE IF SumSeq(ac.used_seeds) + ac.decompressed # WrittenBytes - ReorderWritten THEN "ACCT: bytes reported for seeds and archive do not add up to what was written for them"
+  ELSE IF sc.inplace /\ ac.used_self # expectedUsedSelf THEN "ACCT: bytes reported as used from the output are not the in-place bytes plus one copy of every moved chunk"
+  ELSE IF ac.fetched_stored # fetchedStored THEN "ACCT: bytes reported as fetched are not the stored sizes of the chunks taken from the archive"
+  ELSE IF SumSeq(ac.used_seeds) + ac.decompressed # writtenBytes - reorderWritten THEN "ACCT: bytes reported for seeds and archive do not add up to what was written for them"
   ELSE IF ac.final_archive # ac.fetched_stored \/ ac.final_seeds # (IF ac.used_self > 0 THEN ac.used_self ELSE 0) + SumSeq(ac.used_seeds)
        THEN "ACCT: the closing summary does not equal the sum of the parts reported before"
   ELSE "ok"
@@ -165,7 +173,8 @@ AfterEv ==
      ELSE IF sc.kind = "blockdev" /\ ~Ev.out_prefix_eq_src THEN Flag("EXACT: the device does not start with the source")
      ELSE IF sc.kind # "blockdev" /\ ~Ev.out_eq_src THEN Flag("EXACT: output differs from the source (content or length)")
      ELSE IF fetched # NeededIds \ FoundIds THEN Flag("FETCH: the set of chunks taken from the archive is not exactly the missing ones")
-     ELSE IF "acct" \in DOMAIN Ev /\ "fault" \notin DOMAIN sc /\ "httpfault" \notin DOMAIN sc /\ AcctRule(Ev) # "ok" THEN Flag(AcctRule(Ev))
+     ELSE IF "acct" \in DOMAIN Ev /\ "fault" \notin DOMAIN sc /\ "httpfault" \notin DOMAIN sc
+          THEN LET r == AcctRule(Ev) IN IF r # "ok" THEN Flag(r) ELSE NoFlag
      ELSE NoFlag
   /\ UNCHANGED <<sc, written, fetched, truncated, lastreq, lastcut, ncuts, nok>>
 DoneEv == /\ Step("done") /\ skipping' = TRUE /\ nok' = nok + 1 /\ UNCHANGED <<sc, written, fetched, truncated, lastreq, lastcut, ncuts, verdicts, nverdicts>>
